@@ -110,6 +110,25 @@ CHECKS['C05'] = dict(
     level_note='Trusted: model M-queue/M-disp, generator, ASan/UBSan. Single-threaded histories.',
 )
 
+CHECKS['C06'] = dict(
+    title='Concurrent producers and consumers never lose or duplicate an event',
+    level='exploration',
+    rule='generated scenarios: 1-4 producers x 10-80 uniquely numbered events, 1-4 consumers each with its own random mix of process/processOne/processIf/processUntil/takeEvent/peekEvent/'
+         'clearEvents, on EventQueue with std::list and OrderedQueueList, std::mutex and SpinLock, all through an injected Threading policy (MonMutex/MonAtomic/MonCV) that perturbs the schedule at '
+         'every lock/unlock/atomic operation/unlocked emptiness check/critical section: off, random, or one targeted window (tag x role x n-th visit) widened by 100-1000us; per-event atomic state '
+         'machine (CAS: a second consumption is caught at once), conservation after the final drain, payload checksum, FIFO for single-consumer runs without selective predicates, lock-cycle watchdog; '
+         'ThreadSanitizer build with instrumented std::list primitives (documented unlocked reads bracketed); distinct_nontrivial = distinct lock-acquisition-order hashes observed (plain builds)',
+    jobs=[J('drv_queue_mt', 'plain', 'c06', 1600, 80000, shards=8, shards_thorough=16),
+          J('drv_queue_mt', 'tsan', 'c06', 240, 8000, seed_offset=1, shards=8, shards_thorough=16),
+          J('drv_queue_mt', 'asan', 'c06', 400, 10000, seed_offset=2, shards=8, shards_thorough=16)],
+    assumptions=['x86-TSO only', 'schedules reached by perturbation, not enumerated', 'HeterEventQueue concurrent runs not included yet'],
+    technique='stress + seeded schedule perturbation through the injected Threading policy and guarded preemption points; exactly-once ledger (CAS state machine) + conservation + FIFO oracles; ThreadSanitizer with list shim; ASan',
+    level_text='Exploration: thousands of multi-threaded runs with deliberately widened race windows; every consumption is recorded by compare-and-swap so duplication is caught at the event, loss at the drain; '
+               'TSan reports any unsynchronised access other than the documented unlocked reads.',
+    level_note='Trusted: the perturbing policy wrappers do not add synchronisation in TSan builds (relaxed atomics only); MonCV is an own condition variable (adds its internal mutex).',
+    parallel=8,
+)
+
 CHECKS['C08'] = dict(
     title='Stored callbacks and arguments are destroyed exactly once, never leaked',
     level='exploration',
@@ -142,13 +161,19 @@ CHECKS['C10'] = dict(
 CHECKS['C11'] = dict(
     title='A queue is never reported empty while an event is pending or in dispatch',
     level='exploration',
-    rule='single-threaded half: listeners and predicates running inside process/processOne/processIf/processUntil (nested to depth 2) call emptyQueue() and waitFor(0) '
-         'and the result is compared with the model (pending non-empty or a processing call in progress => not empty); non-trivial as C05; distinct = trace hash',
-    jobs=JS('drv_queue', 'asan', 'c11', 2100, 100000, MQ, shards=4) + JS('drv_queue', 'plain', 'c11', 4200, 200000, MQ, seed_offset=1, shards=4),
-    assumptions=['concurrent observers are added by drv_queue_mt (observer mode) when built'],
-    technique='online monitor: emptiness observations from inside listeners/predicates compared with the model of pending + in-progress processing calls',
-    level_text='Exploration of the single-threaded histories where the observer is a listener or predicate.',
-    level_note='Concurrent half pending.',
+    rule='(a) single-threaded: listeners and predicates running inside process/processOne/processIf/processUntil (nested to depth 2) call emptyQueue() and waitFor(0) '
+         'and the result is compared with the model (pending non-empty or a processing call in progress => not empty); (b) concurrent: 1-2 observer threads spin on emptyQueue()/waitFor(0) while '
+         'producers enqueue and consumers run process/processOne/takeEvent/clearEvents under the perturbing policy; every call and every ledger transition carries a tick from one global atomic clock; '
+         'offline join: an observation "empty" [tc,tr] is a violation if an event whose enqueue returned before tc was fully consumed (end of its listener / start of the take or clear call) only after tr; '
+         'non-trivial: (a) as C05, (b) distinct lock-order hashes; the run reports how many observations had prior events',
+    jobs=JS('drv_queue', 'asan', 'c11', 2100, 100000, MQ, shards=4)
+         + [J('drv_queue_mt', 'plain', 'c11', 1200, 60000, seed_offset=3, shards=8, shards_thorough=16),
+            J('drv_queue_mt', 'tsan', 'c11', 160, 6000, seed_offset=4, shards=8, shards_thorough=16)],
+    assumptions=['consumption-complete ticks are taken at the earliest moment the statement allows, so clock placement can hide but never invent a violation'],
+    technique='online monitor (observer = listener) + offline history checker over tick-stamped observations and per-event ledger (observer = other thread), schedule perturbation, TSan',
+    level_text='Exploration: millions of emptiness observations per thorough run, joined with the event ledger by logical time.',
+    level_note='Trusted: one global seq_cst tick counter (plain builds only; TSan builds contribute race reports only).',
+    parallel=8,
 )
 
 CHECKS['C13'] = dict(
